@@ -282,6 +282,36 @@ def run(ctx):
                     viol('event-alias-external', {'with_alias': t1, 'refs': sorted(e1.external_references())}, feats)
                 if n % 200 == 0:
                     ctx.sample({'with_alias': t1, 'direct': t2, 'stored_predicate': str(e1.predicate)[:200]})
+                # the same event through the other construction routes: class constructor, but(predicate=...),
+                # but(alias=...), replace_var_reference
+                from hpl.ast import HplSimpleEvent
+                from hpl.ast.events import EventType
+                raw = hplapi.outcome(hplapi.build_predicate, via)
+                if raw[0] == 'ok' and not getattr(raw[1], 'is_vacuous', False):
+                    direct_snap = monitors.snapshot(e2.predicate, with_meta=False, with_types=False)
+                    routes = {
+                        'constructor': lambda: HplSimpleEvent('a', raw[1], EventType.PUBLISH, alias=alias),
+                        'publish': lambda: HplSimpleEvent.publish('a', predicate=raw[1], alias=alias),
+                        'but-predicate': lambda: e1.but(predicate=hplapi.build_predicate(via)),
+                        'but-alias': lambda: HplSimpleEvent.publish('a', predicate=hplapi.build_predicate(via)).but(alias=alias),
+                    }
+                    for rname, thunk in routes.items():
+                        if rname == 'but-alias' and alias in A.all_vars(via) and False:
+                            continue
+                        oe = hplapi.outcome(thunk)
+                        ctx.evaluation('evroute:' + rname, False)
+                        ctx.count('event_routes_judged')
+                        if oe[0] != 'ok':
+                            if rname == 'but-alias':
+                                continue  # an event without the alias that references it may be rejected
+                            viol('event-alias-rewrite', {'route': rname, 'with_alias': t1, 'error': hplapi.exc_class(oe)}, feats)
+                            continue
+                        ev = oe[1]
+                        if monitors.snapshot(ev.predicate, with_meta=False, with_types=False) != direct_snap:
+                            viol('event-alias-rewrite', {'route': rname, 'with_alias': t1, 'direct': t2,
+                                                         'stored': str(ev.predicate)[:200]}, feats)
+                        elif alias in ev.predicate.external_references() or alias in ev.external_references():
+                            viol('event-alias-external', {'route': rname, 'with_alias': t1}, feats)
             elif hplapi.exc_class(o1) != hplapi.exc_class(o2):
                 viol('event-alias-rewrite', {'with_alias': t1, 'direct': t2, 'outcomes': [hplapi.exc_class(o1), hplapi.exc_class(o2)]}, feats)
     ctx.count('slots_filled', len(seen_slots))
